@@ -120,7 +120,7 @@ var rawFloatsReviewed = map[string]string{
 func init() {
 	register(&Rule{
 		ID:    "C16.rawfloats",
-		Props: []string{"C16", "C13", "C03", "C06"},
+		Props: []string{"C16", "C13", "C03", "C06", "C14"},
 		Doc:   "the flat float slice of a Sequence is interpreted only by Sequence itself: the field Sequence.floats is read only in the methods of Sequence and its constructor (which apply the stride of the sequence's own coordinates type), plus the reviewed writers that copy the whole slice — any other function that walks the floats itself (with a stride of 2, say) mistakes Z and M ordinates for X and Y on XYZ/XYM/XYZM input",
 		Floor: 10,
 		Run:   runC16RawFloats,
@@ -383,7 +383,7 @@ func runC20LastIndex(c *Ctx) {
 func init() {
 	register(&Rule{
 		ID:    "C20.selfargs",
-		Props: []string{"C20", "C01", "C12", "C09"},
+		Props: []string{"C20", "C01", "C12", "C09", "C02"},
 		Doc:   "no symmetric two-argument helper is called with the same expression twice, and no comparison or subtraction has the same expression on both sides: fastMin/fastMax/math.Min/math.Max(a, a), a - a, a / a, a == a, a < a (structural equality of the operands, loads of the same field included) compute nothing — in this code base such a line is an X/Y (or a/b) copy-paste slip, e.g. a snapping tolerance derived from |X| twice instead of |X| and |Y|",
 		Floor: 0,
 		Run:   runC20SelfArgs,
